@@ -127,7 +127,7 @@ func TestCheck(t *testing.T) {
 		n    int
 	}
 	const chunk = 500
-	for _, s := range []src{{"dense", gen.Dense, r.N(60000, 1500000)}, {"sparse", gen.Sparse, r.N(40000, 800000)}, {"adv", gen.Adv, r.N(80000, 1500000)}} {
+	for _, s := range []src{{"dense", gen.Dense, r.N(240000, 2400000)}, {"sparse", gen.Sparse, r.N(160000, 1600000)}, {"adv", gen.Adv, r.N(400000, 4000000)}} {
 		ev.Parallel(s.n/chunk, func(wk, i int) {
 			w := ws[wk]
 			rng := r.RNG("c01-"+s.name, i)
@@ -164,7 +164,7 @@ func TestCheck(t *testing.T) {
 	// --- reached positions: the engine board is carried along by MakeMove, never reloaded;
 	// after every move the carried board and a freshly loaded one are both compared.
 	corpus := gen.Corpus()
-	games := r.N(700, 14000)
+	games := r.N(3000, 30000)
 	ev.Parallel(games, func(wk, i int) {
 		w := ws[wk]
 		rng := r.RNG("c01-play", i)
@@ -246,7 +246,7 @@ func TestCheck(t *testing.T) {
 	})
 
 	// --- perft observation points: debug.Perft and the UCI perft command vs reference perft
-	np := r.N(300, 5000)
+	np := r.N(1500, 15000)
 	ev.Parallel(np, func(wk, i int) {
 		rng := r.RNG("c01-perft", i)
 		p := gen.AnyPos(rng)
@@ -261,7 +261,7 @@ func TestCheck(t *testing.T) {
 		}
 	})
 	// UCI `perft N` (prints its split to the process stdout, which the runner sends to a file)
-	nu := r.N(30, 300)
+	nu := r.N(100, 1000)
 	for i := 0; i < nu; i++ {
 		rng := r.RNG("c01-uciperft", i)
 		p := gen.AnyPos(rng)
